@@ -33,6 +33,10 @@ Record Hyp (lam : Q) (pi q : list Q) : Prop := {
 (* f alpha = sum_i lambda * pi_i / (alpha - q_i), as the model computes it *)
 Definition f (lam : Q) (pi q : list Q) (alpha : Q) : Q := sigma QA lam pi q alpha.
 
+(* conversion hint for the kernel: unfold the two wrappers before `solve`/`loop`
+   (otherwise checking a Qed may unroll the 32-step loop symbolically) *)
+Strategy expand [solve_python_Q solve_native_Q].
+
 (* ------------------------------------------------------------------ *)
 (* QA basics                                                           *)
 (* ------------------------------------------------------------------ *)
@@ -452,6 +456,24 @@ Lemma weights_form : forall lam pi q a,
   weights QA lam pi q a = map (fun pq => lam * fst pq / (a - snd pq)) (combine pi q).
 Proof. reflexivity. Qed.
 
+(* `solve` = initial bracket + loop, for any exit rule and any fuel *)
+Theorem solve_spec : forall (X : exit_rule Q) fuel lam pi q k a w,
+  Hyp lam pi q -> solve QA X fuel lam pi q = Returned k a w ->
+  exists lo0 hi0 mem' mem'' lo hi alpha,
+    bracket QA lam pi q = (lo0, hi0) /\
+    (1 <= k <= fuel)%nat /\
+    St lam pi q lo0 hi0 (k - 1) lo hi alpha /\
+    x_test X mem' lo hi alpha (f lam pi q alpha) = (Some a, mem'') /\
+    w = weights QA lam pi q a.
+Proof.
+  intros X fuel lam pi q k a w H R. unfold solve in R.
+  destruct (bracket QA lam pi q) as [lo0 hi0] eqn:B.
+  pose proof (St_init _ _ _ _ _ H B) as Hst0.
+  destruct (loop_spec _ _ _ _ _ _ _ _ _ _ _ _ _ _ _ Hst0 R) as (m1 & m2 & lo & hi & al & Hk & Hst & T & W).
+  exists lo0, hi0, m1, m2, lo, hi, al.
+  split; [reflexivity | split; [lia | split; [exact Hst | split; [exact T | exact W]]]].
+Qed.
+
 (* an exit rule that only ever answers `alpha` or `hi` *)
 Definition exit_in_bracket (X : exit_rule Q) : Prop :=
   forall mem lo hi alpha s a mem', x_test X mem lo hi alpha s = (Some a, mem') -> a = alpha \/ a = hi.
@@ -468,31 +490,31 @@ Proof.
   match type of T with (if ?c then _ else _) = _ => destruct c end; inversion T. left; reflexivity.
 Qed.
 
-Theorem returns_in_bracket : forall (X : exit_rule Q) lam pi q k a w,
+Theorem returns_in_bracket : forall (X : exit_rule Q) fuel lam pi q k a w,
   exit_in_bracket X -> Hyp lam pi q ->
-  solve QA X MAX_ITERS lam pi q = Returned k a w ->
+  solve QA X fuel lam pi q = Returned k a w ->
   exists lo0 hi0 lo hi,
     bracket QA lam pi q = (lo0, hi0) /\
     above q lo /\ lo0 <= lo /\ lo <= a /\ a <= hi /\ hi <= hi0 /\
     1 <= f lam pi q lo /\ f lam pi q hi <= 1 /\
     (hi - lo) * pow2 (k - 1) == hi0 - lo0 /\
-    (1 <= k <= MAX_ITERS)%nat /\
+    (1 <= k <= fuel)%nat /\
     above q a /\
     w = map (fun pq => lam * fst pq / (a - snd pq)) (combine pi q) /\
     Forall (fun x => 0 < x) w /\
     Qsum w == f lam pi q a.
 Proof.
-  intros X lam pi q k a w XB H R. unfold solve in R.
-  destruct (bracket QA lam pi q) as [lo0 hi0] eqn:B.
-  pose proof (St_init _ _ _ _ _ H B) as Hst0.
-  destruct (loop_spec _ _ _ _ _ _ _ _ _ _ _ _ _ _ _ Hst0 R) as (m1 & m2 & lo & hi & al & Hk & Hst & T & W).
+  intros X fuel lam pi q k a w XB H R.
+  destruct (solve_spec _ _ _ _ _ _ _ _ H R) as (lo0 & hi0 & m1 & m2 & lo & hi & al & B & Hk & Hst & T & W).
   exists lo0, hi0, lo, hi. destruct Hst as [A L F1 F2 M I1 I2 Wd].
   assert (Ba : lo <= a /\ a <= hi).
   { destruct (XB _ _ _ _ _ _ _ T) as [-> | ->]; lra. }
   assert (Aa : above q a) by (apply above_mono with lo; [assumption | lra]).
-  repeat split; try assumption; try lra; try lia.
-  - subst w. apply weights_pos; assumption.
-  - subst w. apply weights_sum.
+  destruct Ba as [Ba1 Ba2].
+  split; [exact B |]. split; [exact A |]. split; [exact I1 |]. split; [exact Ba1 |].
+  split; [exact Ba2 |]. split; [exact I2 |]. split; [exact F1 |]. split; [exact F2 |].
+  split; [exact Wd |]. split; [lia |]. split; [exact Aa |]. split; [exact W |].
+  split; [subst w; apply weights_pos; assumption | subst w; apply weights_sum].
 Qed.
 
 (* ------------------------------------------------------------------ *)
@@ -543,7 +565,7 @@ Proof.
   intros lam pi q H. pose proof (python_terminates lam pi q H) as NT.
   destruct (solve_python_Q lam pi q) as [k a w |] eqn:R; [| congruence].
   exists k, a, w.
-  destruct (returns_in_bracket _ _ _ _ _ _ _ python_exit_in_bracket H R)
+  destruct (returns_in_bracket _ _ _ _ _ _ _ _ python_exit_in_bracket H R)
     as (lo0 & hi0 & lo & hi & _ & _ & _ & _ & _ & _ & _ & _ & _ & Hk & Aa & Ew & Pw & _).
   repeat split; try assumption; unfold MAX_ITERS in Hk; lia.
 Qed.
@@ -557,20 +579,18 @@ Theorem python_output_sum : forall lam pi q k a w,
   ((forall x, above q x -> x < a - TOL_Q -> 1 < f lam pi q x) /\
    (forall x, a + TOL_Q < x -> f lam pi q x < 1)).
 Proof.
-  intros lam pi q k a w H R. unfold solve_python_Q, solve in R.
-  destruct (bracket QA lam pi q) as [lo0 hi0] eqn:B.
-  pose proof (St_init _ _ _ _ _ H B) as Hst0.
-  destruct (loop_spec _ _ _ _ _ _ _ _ _ _ _ _ _ _ _ Hst0 R) as (m1 & m2 & lo & hi & al & Hk & Hst & T & W).
+  intros lam pi q k a w H R.
+  destruct (solve_spec _ _ _ _ _ _ _ _ H R) as (lo0 & hi0 & m1 & m2 & lo & hi & al & B & Hk & Hst & T & W).
   cbn [x_test python_exit_Q python_exit a_leb a_abs a_sub a_one QA] in T.
   destruct (Qle_bool (Qabs (1 - f lam pi q al)) EPS_Q) eqn:E1.
-  - left. cbn in T. injection T as <-. subst w. rewrite weights_sum. apply Qle_bool_iff. exact E1.
+  - left. cbn [orb] in T. injection T as Ea _. subst a w. rewrite weights_sum. apply Qle_bool_iff. exact E1.
   - right. cbn [orb] in T. destruct (Qle_bool (hi - lo) TOL_Q) eqn:E2; [| discriminate].
-    injection T as <-. apply Qle_bool_iff in E2. destruct Hst as [A L F1 F2 M I1 I2 Wd]. split.
-    + intros x Ax Lx. assert (x < lo) by lra.
-      pose proof (f_strictly_decreasing lam pi q x lo H Ax H0). lra.
-    + intros x Lx. assert (hi < x) by lra.
+    injection T as Ea _. subst a. apply Qle_bool_iff in E2. destruct Hst as [A L F1 F2 M I1 I2 Wd]. split.
+    + intros x Ax Lx. assert (Lx' : x < lo) by lra.
+      pose proof (f_strictly_decreasing lam pi q x lo H Ax Lx'). lra.
+    + intros x Lx. assert (Lx' : hi < x) by lra.
       assert (Ah : above q hi) by (apply above_mono with lo; assumption).
-      pose proof (f_strictly_decreasing lam pi q hi x H Ah H0). lra.
+      pose proof (f_strictly_decreasing lam pi q hi x H Ah Lx'). lra.
 Qed.
 
 (* ------------------------------------------------------------------ *)
@@ -593,7 +613,7 @@ Theorem native_if_returns : forall lam pi q k a w,
     Forall (fun x => 0 < x) w /\
     Qsum w == f lam pi q a.
 Proof.
-  intros. apply returns_in_bracket with (X := native_exit_Q); [apply native_exit_in_bracket | assumption | assumption].
+  intros lam pi q k a w H R. exact (returns_in_bracket native_exit_Q MAX_ITERS lam pi q k a w native_exit_in_bracket H R).
 Qed.
 
 (* ------------------------------------------------------------------ *)
@@ -613,16 +633,16 @@ Proof.
   - split; [reflexivity | cbn; discriminate].
 Qed.
 
-Example ex_bracket : bracket QA ex_lam ex_pi ex_q = (7 # 12, 5 # 6)%Q.
+Example ex_bracket : bracket QA ex_lam ex_pi ex_q = (14 # 24, 5 # 6)%Q.
 Proof. vm_compute. reflexivity. Qed.
 
 Example ex_python_run :
-  exists a w, solve_python_Q ex_lam ex_pi ex_q = Returned 6 a w /\
-              Qred a = 247 # 384 /\ map Qred w = [32 # 315; 32 # 247; 32 # 55].
+  exists a w, solve_python_Q ex_lam ex_pi ex_q = Returned 8 a w /\
+              Qred a = 1873 # 3072 /\ map Qred w = [512 # 4945; 256 # 1873; 256 # 337].
 Proof. eexists. eexists. split; [vm_compute; reflexivity | split; vm_compute; reflexivity]. Qed.
 
 Example ex_native_run :
-  exists a w, solve_native_Q ex_lam ex_pi ex_q = Returned 6 a w /\ Qred a = 247 # 384.
+  exists a w, solve_native_Q ex_lam ex_pi ex_q = Returned 8 a w /\ Qred a = 1873 # 3072.
 Proof. eexists. eexists. split; vm_compute; reflexivity. Qed.
 
 (* hypotheses of bracket_K1 *)
@@ -633,7 +653,7 @@ Proof.
 Qed.
 
 (* a state reachable by the loop, for width_k / loop_spec *)
-Example ex_state : St ex_lam ex_pi ex_q (7 # 12) (5 # 6) 0 (7 # 12) (5 # 6) (mid QA (7 # 12) (5 # 6)).
+Example ex_state : St ex_lam ex_pi ex_q (14 # 24) (5 # 6) 0 (14 # 24) (5 # 6) (mid QA (14 # 24) (5 # 6)).
 Proof. apply St_init; [exact ex_hyp | exact ex_bracket]. Qed.
 
 (* the decimal constants of the two sources against the rationals used here *)
